@@ -37,11 +37,22 @@ def main():
             vid = v["id"]
             if sel and not any(vid.startswith(s) for s in sel):
                 continue
-            path = os.path.join(repo, v["file"])
-            orig = open(path).read()
-            if v["old"] not in orig:
+            edits = [(v["file"], v["old"], v["new"])] + [tuple(e) for e in v.get("edits", [])]
+            origs = {}
+            stale = False
+            for (f, old, new) in edits:
+                path = os.path.join(repo, f)
+                if path not in origs:
+                    origs[path] = open(path).read()
+                cur = open(path).read()
+                if old not in cur:
+                    stale = True
+                    break
+                open(path, "w").write(cur.replace(old, new, 1))
+            if stale:
+                for path, o in origs.items():
+                    open(path, "w").write(o)
                 results.append((vid, "STALE", "old text not found")); print(f"{vid}: STALE (old text not found)"); continue
-            open(path, "w").write(orig.replace(v["old"], v["new"], v.get("count", 1)))
             try:
                 b = sh(f"cd {repo} && go build ./...", env=env)
                 if b.returncode != 0:
@@ -57,7 +68,8 @@ def main():
                     if status != "CAUGHT":
                         print("   " + "\n   ".join(l for l in out.splitlines() if "WARNING" not in l)[:1500])
             finally:
-                open(path, "w").write(orig)
+                for path, o in origs.items():
+                    open(path, "w").write(o)
         bad = [r for r in results if r[1] != "CAUGHT"]
         print(f"\n{len(results)-len(bad)}/{len(results)} variants caught")
         with open(os.path.join(HERE, "RESULTS.md"), "w") as f:
